@@ -140,7 +140,12 @@ class Engine:
                     # process the result: keep track of the statistics for the underlying and the payoff
                     statistics.add(it, path_manager)
 
+            process = self.process
+
             def simulating_one_path(it):
+                # each task sent to a worker carries its own copy of the process, hence of the variates pre-drawn by
+                # the parent: the tasks would all pop the same ones. Draw the variates of this path in the worker.
+                process.pre_computation(1, product)
                 return it, simulate_one_path()
 
             with mp.Pool(processes=nb_of_processes, initializer=initializer) as pool:
